@@ -22,6 +22,9 @@ A case is a route list plus a handful of requests:
            was not produced from tokens (malformed stream) or when the documented grammar reads it differently
   RX     = ["eps"] | ["chr", c] | ["any"] | ["all"] (= (?s:.)) | ["set", neg, [["c", c] | ["r", lo, hi] | ["e", "d"|"w"|"s"]…]] | ["esc", k, neg]
          | ["seq", RX, RX] | ["alt", RX, RX] | ["rep", greedy, min, max|null, RX]
+         | ["grp", null | name, RX]   a capturing group of the regex's own, `(…)` or `(?P<_gN>…)`: transparent for matching;
+                                      an inner *named* group also shows up in the real match dictionary under its own name
+                                      (keys `_gN` are dropped before comparing — they are not placeholders)
 mode "mapper": RoutesMapper().connect(...) then RoutesMapper.__call__(Request(environ))  (re-connects and static allowed)
 mode "router": Configurator.add_route(...) flat, Router.__call__(environ, start_response), a catch-all view records
                request.matched_route.name / request.matchdict
@@ -97,8 +100,10 @@ def rx_print(rx):
         return rx_print(rx[1]) + rx_print(rx[2])
     if k == 'alt':
         return '(?:' + rx_print(rx[1]) + '|' + rx_print(rx[2]) + ')'
+    if k == 'grp':
+        return ('(' if rx[1] is None else '(?P<' + rx[1] + '>') + rx_print(rx[2]) + ')'
     if k == 'rep':
-        body = rx_print(rx[4]) if rx[4][0] in ('chr', 'any', 'all', 'set', 'esc', 'alt') else '(?:' + rx_print(rx[4]) + ')'
+        body = rx_print(rx[4]) if rx[4][0] in ('chr', 'any', 'all', 'set', 'esc', 'alt', 'grp') else '(?:' + rx_print(rx[4]) + ')'
         return body + quant(rx[1], rx[2], rx[3])
     raise ValueError(rx)
 
@@ -111,6 +116,8 @@ def rx_wire(rx):
         return ['set', rx[1], [[i[0]] + [ord(x) if i[0] != 'e' else x for x in i[1:]] for i in rx[2]]]
     if k in ('seq', 'alt'):
         return [k, rx_wire(rx[1]), rx_wire(rx[2])]
+    if k == 'grp':
+        return ['grp', None if rx[1] is None else [ord(c) for c in rx[1]], rx_wire(rx[2])]
     if k == 'rep':
         return ['rep', rx[1], rx[2], rx[3], rx_wire(rx[4])]
     return list(rx)
@@ -126,6 +133,8 @@ def rx_nullable(rx):
         return rx_nullable(rx[1]) and rx_nullable(rx[2])
     if k == 'alt':
         return rx_nullable(rx[1]) or rx_nullable(rx[2])
+    if k == 'grp':
+        return rx_nullable(rx[2])
     return rx[2] == 0 or rx_nullable(rx[4])
 
 
@@ -182,6 +191,8 @@ def rx_run(rx, s, i):
         return [e for m in rx_run(rx[1], s, i) for e in rx_run(rx[2], s, m)]
     if k == 'alt':
         return rx_run(rx[1], s, i) + rx_run(rx[2], s, i)
+    if k == 'grp':
+        return rx_run(rx[2], s, i)
     g, mn, mx, body = rx[1], rx[2], rx[3], rx[4]
 
     def rep(j, count):
@@ -215,6 +226,8 @@ def rx_sample(rng, rx):
         return None if a is None or b is None else a + b
     if k == 'alt':
         return rx_sample(rng, rx[1 + rng.randrange(2)])
+    if k == 'grp':
+        return rx_sample(rng, rx[2])
     mn, mx = rx[2], rx[3]
     n = rng.randint(mn, mn + 2 if mx is None else mx)
     parts = [rx_sample(rng, rx[4]) for _ in range(n)]
@@ -234,6 +247,10 @@ def gen_item(rng):
     return ['e', rng.choice('dws')]
 
 
+INNER = [0]          # counter for the names of inner named groups (unique within a pattern, never a placeholder name)
+INNER_KEY = re.compile(r'_g\d+\Z')
+
+
 def gen_rx(rng, depth=0, inrep=False):
     """a random tree of the fragment (Rx.ok); no unbounded repeat inside a repeat (keeps the number of alternatives
     polynomial)"""
@@ -251,8 +268,15 @@ def gen_rx(rng, depth=0, inrep=False):
         return ['esc', rng.choice('dws'), rng.random() < 0.3]
     if r < 0.55:
         return ['seq', gen_rx(rng, depth + 1, inrep), gen_rx(rng, depth + 1, inrep)]
-    if r < 0.7:
+    if r < 0.68:
         return ['alt', gen_rx(rng, depth + 1, inrep), gen_rx(rng, depth + 1, inrep) if rng.random() < 0.85 else ['eps']]
+    if r < 0.8:
+        # a capturing group of the regex's own (nested ones arise from the recursion); one in four is named
+        name = None
+        if rng.random() < 0.25:
+            INNER[0] += 1
+            name = '_g%d' % INNER[0]
+        return ['grp', name, gen_rx(rng, depth + 1, inrep)]
     for _ in range(5):
         body = gen_rx(rng, depth + 1, True)
         if not rx_nullable(body):
@@ -498,6 +522,8 @@ def err_name(e):
 def canon_match(d):
     out = []
     for k, v in d.items():
+        if INNER_KEY.match(k):
+            continue                 # a named group written inside a placeholder's regex: not a placeholder
         if isinstance(v, tuple):
             out.append([k, 't', list(v)])
         else:
@@ -529,7 +555,7 @@ def gen_template_of(route, rx_text, pattern):
     if rx_text is None:
         return None
     try:
-        names = list(re.compile(rx_text).groupindex)
+        names = [n for n in re.compile(rx_text).groupindex if not INNER_KEY.match(n)]
         sent = {n: 'ZQ%dQZ' % i for i, n in enumerate(names)}
         if any(x in pattern for x in sent.values()):
             return None
